@@ -240,6 +240,17 @@ func mutateSecondHello(mut string, ch1, ch2 []byte, ver string, recSeq uint64) (
 
 			return true
 		})
+	case "ext-append": // one more extension behind those of the first ClientHello (an ALPN offer the first one did not carry)
+		return rebuildHello(ch2, recSeq, func(ch *handshake.MessageClientHello) bool {
+			for _, e := range ch.Extensions {
+				if _, has := e.(*extension.ALPNOffer); has {
+					return false
+				}
+			}
+			ch.Extensions = append(ch.Extensions, &extension.ALPNOffer{Protocols: []string{"c13-extra"}})
+
+			return true
+		})
 	case "ext-drop": // strip the last non-cookie, non-key-share extension
 		return rebuildHello(ch2, recSeq, func(ch *handshake.MessageClientHello) bool {
 			for i := len(ch.Extensions) - 1; i >= 0; i-- {
